@@ -35,7 +35,7 @@ import btpu.messages as bm
 SIG_LEN20 = ('C20 / _send_transfer / message length >= 2^20 overflows the 20-bit length field '
              '(unsegmented bundle, mtu None or > len+4)')
 LEN_MOD = 1 << 20
-BIG = 3000  # bundles longer than this are compared by (length, prefix, digest) per frame
+BIG = 400  # bundles/payloads longer than this are compared by (length, prefix, digest)
 
 
 # ----------------------------------------------------------------------------------------------
@@ -167,7 +167,7 @@ def real_recv(arrival):
             progress = []
             for ((ckey, xnum), xfer) in raw_prog.items():
                 idxs = sorted(xfer.data.keys())
-                progress.append(((keyconv[ckey], int(xnum)),
+                progress.append((keyconv[ckey], int(xnum),
                                  [] if xfer.got_end is None else [int(xfer.got_end)], idxs))
             progress.sort()
         except Exception:
@@ -595,14 +595,14 @@ def gen_send_cases(chk):
             xid = rng.choice([0, 1, 7, 255, 256, 65536, 2 ** 32 - 1, rng.randrange(2 ** 32)])
         cases.append((mtu, xid, rng.randrange(1, 2 ** 31), length))
 
-    mtus = [19, 20, 21, 22, 23, 24, 30, 31, 64, 100, 128, 576, 1280, 1500]
+    mtus = [19, 20, 21, 23, 30, 64, 100, 576, 1500]
     if not chk.quick():
-        mtus += [9000, 65535]
+        mtus += [22, 24, 31, 128, 1280, 9000, 65535]
     for mtu in mtus:
         seg = mtu - 18
         for length in [0, 1, mtu - 6, mtu - 5, mtu - 4, mtu - 3, mtu, mtu + 1]:
             add(mtu, length)
-        for mult in (1, 2, 3, 5, 9):
+        for mult in ((1, 2, 3, 5) if chk.quick() else (1, 2, 3, 5, 9, 17)):
             if seg * mult > (6000 if chk.quick() else 200000):
                 continue
             for delta in (-1, 0, 1):
@@ -614,7 +614,7 @@ def gen_send_cases(chk):
         for length in (0, 1, mtu - 6, mtu - 5):
             add(mtu, length)
     add(LEN_MOD + 3, LEN_MOD - 2)  # largest bundle that is sent unsegmented under an MTU
-    count = 60 if chk.quick() else 1500
+    count = 40 if chk.quick() else 1500
     for _ in range(count):
         mtu = rng.choice([rng.randrange(19, 40), rng.randrange(19, 300), rng.randrange(19, 2000)])
         add(mtu, rng.choice([rng.randrange(0, 3 * mtu), rng.randrange(0, 60 * (mtu - 18))]) % 20000)
@@ -966,7 +966,7 @@ def run_all(chk):
     model = chk.coq_eval('recv', ['Model.Btpu'], [c_recv(arr) for arr in recv_cases], 'run_recv', chunk=40)
     for (arrival, mod) in zip(recv_cases, model):
         obs = real_recv(arrival)
-        (m_trace, m_prog, m_queue, m_signals, m_timers) = mod
+        (m_trace, m_prog, m_queue, m_signals, m_timers) = (mod[0],) + tuple(mod[1:]) if len(mod) == 5 else (mod[0],) + tuple(mod[1])
         chk.case(('recv', tuple(arrival)), nontrivial=len(arrival) > 1, sample=None)
         chk.count('recv_crafted_outcome', 'raised' if any(r for (_n, r) in obs['trace']) else ('queued' if obs['queue'] else 'nothing-queued'))
         real = ([(n, bool(r)) for (n, r) in obs['trace']], [(b, d) for (b, d) in obs['queue']],
